@@ -14,10 +14,33 @@ Part 1 — scoping rules (`scopeViolations`):
 * `comot`/`next` need an enclosing loop **of the same function body**, `return` an enclosing function;
 * builtin names cannot be declared; parameters are distinct; argument counts match.
 
-Part 2 — typing (`typeViolations`): flow-insensitive declared types over the documented tables of
-`Spec/DocTypes.lean`; a function's result type is the common type of its `return` expressions typed
-**in its own scope**, else dynamic; documented argument types of methods; a member expression is only
-a method callee, a callee is a name or a method, an index assignment is rooted in a variable.
+Part 2 — typing (`typeViolations`): declared types over the documented tables of `Spec/DocTypes.lean`.
+* The *declared type* of a variable is the static type of the initialiser of its latest `make` in the
+  scope it lives in (dynamic if the initialiser has no static type; parameters are dynamic); `x get e`
+  never changes it (static types are advisory).
+* The *static result type of a function* `f` defined in a block `B` is a property of `B`, fixed before
+  any statement of `B` or of `f` is looked at (`f` is callable throughout `B`).  Every `return e` of
+  `f`'s body — bodies of nested functions excluded — is typed in the environment that holds at the
+  entry of `B` (declared types of the variables of the enclosing blocks, result types of the visible
+  functions), in which every name whose binding is not lexically determined from outside is DYNAMIC:
+  `f`'s parameters, every variable that a `make` anywhere in `f`'s body declares, every variable that
+  a `make` directly in `B` declares (not declared yet at the entry of `B`, and declared or not when `f`
+  runs depending on where it is called from), and every function defined anywhere in `f`'s body.
+  `return` without a value has type null, an expression without a static type counts as dynamic.  The
+  result type is the type all `return`s agree on, null if there is none, dynamic otherwise.
+  Why not the declared types of `f`'s own variables: a local may be re-declared with another type
+  further down, may be declared in one branch only, and a variable of `B` may or may not exist yet when
+  `f` is called; dynamic is the one answer that never rejects a valid program.  Only a name that
+  neither `f` nor `B` can rebind has one declaration whenever `f` runs, and that is the one in scope at
+  the entry of `B`.
+* The functions of a block are typed together: all result types start as dynamic and are recomputed in
+  definition order (a new type is visible to the later functions of the same round) once per function
+  of the block (`fnTable`); this makes the result types of (mutually) recursive functions well defined.
+* Documented argument types of methods; a member expression is only a method callee, a callee is a name
+  or a method, an index assignment is rooted in a variable.
+
+Part 3 — `ReturnsTyped`: the side condition "every `return` expression breaks no typing rule in the
+environment in which its function's result type is determined".
 
 `WF p := scopeViolations p = [] ∧ typeViolations p = []`.  Core-only: the driver evaluates it.
 -/
@@ -289,106 +312,187 @@ def setAt {α : Type} : List α → Nat → α → List α
   | _ :: as, 0, x => x :: as
   | a :: as, n + 1, x => a :: setAt as n x
 
-/-! The functions below are fuel-indexed: the fuel bounds the recursion *depth* (every call passes
-the decremented fuel to its callees), `4 * size p + 8` suffices for a program `p`. -/
+/-! ### The static result type of a function -/
+
+def madeName : Stmt → List Bytes
+  | .assign x _ _ _ _ _ => [x]
+  | _ => []
+
+def definedName : Stmt → List Bytes
+  | .fnDef name _ _ _ _ _ _ => [name]
+  | _ => []
 
 mutual
-  /-- Types of the `return` expressions of a statement list, each typed where it stands
-  (`cur` = the declared types of the enclosing block so far); nested function bodies excluded. -/
-  def rStmts : Nat → TEnv → TScope → List Stmt → List VType
-    | 0, _, _, _ => []
-    | _ + 1, _, _, [] => []
-    | n + 1, te, cur, s :: ss =>
-        let here : TEnv := { te with vars := cur :: te.vars }
-        match s with
-        | .assign x _ e _ _ _ => rStmts n te (tDeclare cur x ((typeOf here e).getD .dynamic)) ss
-        | .ret (some e) _ _ => (typeOf here e).getD .dynamic :: rStmts n te cur ss
-        | .ret none _ _ => .null :: rStmts n te cur ss
-        | .ifS _ (.mk t _) e _ _ =>
-            rBlock n here t ++ (match e with | some (.mk e _) => rBlock n here e | none => []) ++ rStmts n te cur ss
-        | .loop _ (.mk b _) _ _ => rBlock n here b ++ rStmts n te cur ss
-        | .block (.mk b _) _ _ => rBlock n here b ++ rStmts n te cur ss
-        | _ => rStmts n te cur ss
-  /-- Return types inside a nested block (its own functions are visible in it). -/
-  def rBlock : Nat → TEnv → List Stmt → List VType
-    | 0, _, _ => []
-    | n + 1, te, ss => rStmts n { te with fns := fnTable n te ss :: te.fns } [] ss
-  /-- One round: every function's result type from its own `return`s, in definition order. -/
-  def tableRound : Nat → TEnv → List Bytes → List (Bytes × List Bytes × Block) → Nat →
-      List (Bytes × VType) → List (Bytes × VType)
-    | 0, _, _, _, _, tab => tab
-    | _ + 1, _, _, [], _, tab => tab
-    | n + 1, te, makes, (name, ps, .mk body _) :: rest, i, tab =>
-        let inner : TEnv := { vars := (ps.map (fun p => (p, VType.dynamic))).reverse
-                                        :: makes.map (fun m => (m, VType.dynamic)) :: te.vars,
-                              fns := tab :: te.fns }
-        let t := commonType (rBlock n inner body)
-        tableRound n te makes rest (i + 1) (setAt tab i (name, t))
-  def tableIter : Nat → TEnv → List Bytes → List (Bytes × List Bytes × Block) → Nat →
-      List (Bytes × VType) → List (Bytes × VType)
-    | 0, _, _, _, _, tab => tab
-    | _ + 1, _, _, _, 0, tab => tab
-    | n + 1, te, makes, defs, k + 1, tab =>
-        let tab' := tableRound n te makes defs 0 tab
-        if tab' == tab then tab else tableIter n te makes defs k tab'
-  /-- Result types of the functions of a block. -/
-  def fnTable : Nat → TEnv → List Stmt → List (Bytes × VType)
-    | 0, _, _ => []
-    | n + 1, te, ss =>
-        let defs := blockDefs ss []
-        tableIter n te (blockMakes ss) defs defs.length (defs.map fun d => (d.1, VType.dynamic))
+  /-- `pick` of every statement of the list and of its nested blocks (branches, loop bodies, plain
+  blocks); bodies of nested functions are not entered. -/
+  def gather (pick : Stmt → List Bytes) : Stmt → List Bytes
+    | .ifS _ t e _ _ => gatherB pick t ++ gatherO pick e
+    | .loop _ b _ _ => gatherB pick b
+    | .block b _ _ => gatherB pick b
+    | s => pick s
+  def gatherL (pick : Stmt → List Bytes) : List Stmt → List Bytes
+    | [] => []
+    | s :: ss => gather pick s ++ gatherL pick ss
+  def gatherB (pick : Stmt → List Bytes) : Block → List Bytes
+    | .mk ss _ => gatherL pick ss
+  def gatherO (pick : Stmt → List Bytes) : Option Block → List Bytes
+    | none => []
+    | some b => gatherB pick b
 end
 
 mutual
-  def stmtsT : Nat → TEnv → TScope → List Bytes → List Stmt → List Viol
-    | 0, _, _, _, _ => []
-    | _ + 1, _, _, _, [] => []
-    | n + 1, te, cur, seen, s :: ss =>
-        let here : TEnv := { te with vars := cur :: te.vars }
-        match s with
-        | .assign x _ e _ _ _ =>
-            exprT here e ++ stmtsT n te (tDeclare cur x ((typeOf here e).getD .dynamic)) seen ss
-        | .assignExisting _ _ e _ _ _ => exprT here e ++ stmtsT n te cur seen ss
-        | .assignIndex t e _ sp =>
-            exprT here t ++ exprT here e ++ vIf (!isVarRooted t) .badIndexRoot sp ++ stmtsT n te cur seen ss
-        | .ifS c t e _ _ =>
-            exprT here c ++ tyIf (typeOf here c) Doc.condOk .tyCond c.span ++ blockT n here t
-              ++ (match e with | some e => blockT n here e | none => []) ++ stmtsT n te cur seen ss
-        | .loop c b _ _ =>
-            exprT here c ++ tyIf (typeOf here c) Doc.condOk .tyCond c.span ++ blockT n here b
-              ++ stmtsT n te cur seen ss
-        | .block b _ _ => blockT n here b ++ stmtsT n te cur seen ss
-        | .fnDef name _ ps body _ _ _ =>
-            if seen.contains name then stmtsT n te cur seen ss else
-              blockT n { here with vars := (ps.map (fun p => (p.name, VType.dynamic))).reverse :: here.vars } body
-                ++ stmtsT n te cur (name :: seen) ss
-        | .ret (some e) _ _ => exprT here e ++ stmtsT n te cur seen ss
-        | .expr e _ _ => exprT here e ++ stmtsT n te cur seen ss
-        | _ => stmtsT n te cur seen ss
-  def blockT : Nat → TEnv → Block → List Viol
-    | 0, _, _ => []
-    | n + 1, te, .mk ss _ => stmtsT n { te with fns := fnTable n te ss :: te.fns } [] [] ss
+  /-- Types of the `return`s of a statement, typed in `te`; nested function bodies excluded. -/
+  def retTypes (te : TEnv) : Stmt → List VType
+    | .ret (some e) _ _ => [(typeOf te e).getD .dynamic]
+    | .ret none _ _ => [.null]
+    | .ifS _ t e _ _ => retTypesB te t ++ retTypesO te e
+    | .loop _ b _ _ => retTypesB te b
+    | .block b _ _ => retTypesB te b
+    | _ => []
+  def retTypesL (te : TEnv) : List Stmt → List VType
+    | [] => []
+    | s :: ss => retTypes te s ++ retTypesL te ss
+  def retTypesB (te : TEnv) : Block → List VType
+    | .mk ss _ => retTypesL te ss
+  def retTypesO (te : TEnv) : Option Block → List VType
+    | none => []
+    | some b => retTypesB te b
 end
 
-/-! Size of a program: an upper bound of the recursion depth of the fuel-indexed functions. -/
+abbrev FnTable := List (Bytes × VType)
+
+/-- The environment in which the result type of a function (parameters `params`, body `body`) is
+determined: `te` at the entry of the defining block, whose functions currently have the result types
+`tab` and which declares `makes`; every name the function or the block may bind is dynamic. -/
+def retEnv (te : TEnv) (tab : FnTable) (makes params : List Bytes) (body : Block) : TEnv :=
+  { vars := ((params ++ makes ++ gatherB madeName body).map fun x => (x, VType.dynamic)) :: te.vars,
+    fns := ((gatherB definedName body).map fun x => (x, VType.dynamic)) :: tab :: te.fns }
+
+/-- One round: every function's result type from its own `return`s, in definition order, in place. -/
+def tableRound (te : TEnv) (makes : List Bytes) : List (Bytes × List Bytes × Block) → Nat → FnTable → FnTable
+  | [], _, tab => tab
+  | (name, ps, body) :: rest, i, tab =>
+      tableRound te makes rest (i + 1)
+        (setAt tab i (name, commonType (retTypesB (retEnv te tab makes ps body) body)))
+
+def tableIter (te : TEnv) (makes : List Bytes) (defs : List (Bytes × List Bytes × Block)) : Nat → FnTable → FnTable
+  | 0, tab => tab
+  | k + 1, tab => tableIter te makes defs k (tableRound te makes defs 0 tab)
+
+/-- Result types of the functions of a block whose entry environment is `te`. -/
+def fnTable (te : TEnv) (ss : List Stmt) : FnTable :=
+  let defs := blockDefs ss []
+  tableIter te (blockMakes ss) defs defs.length (defs.map fun d => (d.1, VType.dynamic))
+
+/-! ### Violations of the typing rules -/
+
+/-- The declared types of the block after the statement. -/
+def nextT (te : TEnv) (cur : TScope) : Stmt → TScope
+  | .assign x _ e _ _ _ => tDeclare cur x ((typeOf { te with vars := cur :: te.vars } e).getD .dynamic)
+  | _ => cur
+
 mutual
-  def sizeStmt : Stmt → Nat
-    | .fnDef _ _ _ b _ _ _ => 2 + sizeBlock b
-    | .ifS _ t e _ _ => 2 + sizeBlock t + sizeOptBlock e
-    | .loop _ b _ _ => 2 + sizeBlock b
-    | .block b _ _ => 2 + sizeBlock b
-    | _ => 1
-  def sizeStmts : List Stmt → Nat
-    | [] => 0
-    | s :: ss => sizeStmt s + sizeStmts ss
-  def sizeBlock : Block → Nat
-    | .mk ss _ => 2 + sizeStmts ss
-  def sizeOptBlock : Option Block → Nat
-    | none => 0
-    | some b => sizeBlock b
+  /-- `te`: the enclosing blocks; `cur`: declared types of this block so far; `seen`: function
+  definitions of this block already passed (a later one of the same name is a rejected duplicate
+  whose body is not analysed). -/
+  def stmtT (te : TEnv) (cur : TScope) (seen : List Bytes) : Stmt → List Viol
+    | .assign _ _ e _ _ _ => exprT { te with vars := cur :: te.vars } e
+    | .assignExisting _ _ e _ _ _ => exprT { te with vars := cur :: te.vars } e
+    | .assignIndex t e _ sp =>
+        exprT { te with vars := cur :: te.vars } t ++ exprT { te with vars := cur :: te.vars } e
+          ++ vIf (!isVarRooted t) .badIndexRoot sp
+    | .ifS c t e _ _ =>
+        exprT { te with vars := cur :: te.vars } c
+          ++ tyIf (typeOf { te with vars := cur :: te.vars } c) Doc.condOk .tyCond c.span
+          ++ blockT { te with vars := cur :: te.vars } t ++ optBlockT { te with vars := cur :: te.vars } e
+    | .loop c b _ _ =>
+        exprT { te with vars := cur :: te.vars } c
+          ++ tyIf (typeOf { te with vars := cur :: te.vars } c) Doc.condOk .tyCond c.span
+          ++ blockT { te with vars := cur :: te.vars } b
+    | .block b _ _ => blockT { te with vars := cur :: te.vars } b
+    | .fnDef name _ ps body _ _ _ =>
+        if seen.contains name then [] else
+          blockT { te with vars := (ps.map (fun p => (p.name, VType.dynamic))).reverse :: cur :: te.vars } body
+    | .ret (some e) _ _ => exprT { te with vars := cur :: te.vars } e
+    | .ret none _ _ => []
+    | .brk _ _ => []
+    | .cont _ _ => []
+    | .expr e _ _ => exprT { te with vars := cur :: te.vars } e
+  def stmtsT (te : TEnv) (cur : TScope) (seen : List Bytes) : List Stmt → List Viol
+    | [] => []
+    | s :: ss => stmtT te cur seen s ++ stmtsT te (nextT te cur s) (nextSeen seen s) ss
+  /-- `te`: the environment at the entry of the block. -/
+  def blockT (te : TEnv) : Block → List Viol
+    | .mk ss _ => stmtsT { te with fns := fnTable te ss :: te.fns } [] [] ss
+  def optBlockT (te : TEnv) : Option Block → List Viol
+    | none => []
+    | some b => blockT te b
 end
 
-def typeViolations (p : Block) : List Viol := blockT (4 * sizeBlock p + 8) { vars := [], fns := [] } p
+/-- Every violation of a typing rule, with the span the rule is reported at. -/
+def typeViolations (p : Block) : List Viol := blockT { vars := [], fns := [] } p
+
+/-! ## Part 3: return expressions well typed where result types are determined -/
+
+mutual
+  /-- Every `return e` of the statement breaks no typing rule in `te`. -/
+  def retsOk (te : TEnv) : Stmt → Bool
+    | .ret (some e) _ _ => (exprT te e).isEmpty
+    | .ifS _ t e _ _ => retsOkB te t && retsOkO te e
+    | .loop _ b _ _ => retsOkB te b
+    | .block b _ _ => retsOkB te b
+    | _ => true
+  def retsOkL (te : TEnv) : List Stmt → Bool
+    | [] => true
+    | s :: ss => retsOk te s && retsOkL te ss
+  def retsOkB (te : TEnv) : Block → Bool
+    | .mk ss _ => retsOkL te ss
+  def retsOkO (te : TEnv) : Option Block → Bool
+    | none => true
+    | some b => retsOkB te b
+end
+
+def roundOk (te : TEnv) (makes : List Bytes) : List (Bytes × List Bytes × Block) → Nat → FnTable → Bool
+  | [], _, _ => true
+  | (name, ps, body) :: rest, i, tab =>
+      retsOkB (retEnv te tab makes ps body) body &&
+        roundOk te makes rest (i + 1)
+          (setAt tab i (name, commonType (retTypesB (retEnv te tab makes ps body) body)))
+
+def iterOk (te : TEnv) (makes : List Bytes) (defs : List (Bytes × List Bytes × Block)) : Nat → FnTable → Bool
+  | 0, _ => true
+  | k + 1, tab => roundOk te makes defs 0 tab && iterOk te makes defs k (tableRound te makes defs 0 tab)
+
+/-- In every round of `fnTable te ss`, every `return` expression is well typed where it is typed. -/
+def tableOk (te : TEnv) (ss : List Stmt) : Bool :=
+  let defs := blockDefs ss []
+  iterOk te (blockMakes ss) defs defs.length (defs.map fun d => (d.1, VType.dynamic))
+
+mutual
+  /-- `tableOk` at every block the statement contains (same environments as `stmtT`). -/
+  def stmtRT (te : TEnv) (cur : TScope) (seen : List Bytes) : Stmt → Bool
+    | .ifS _ t e _ _ => blockRT { te with vars := cur :: te.vars } t && optBlockRT { te with vars := cur :: te.vars } e
+    | .loop _ b _ _ => blockRT { te with vars := cur :: te.vars } b
+    | .block b _ _ => blockRT { te with vars := cur :: te.vars } b
+    | .fnDef name _ ps body _ _ _ =>
+        seen.contains name ||
+          blockRT { te with vars := (ps.map (fun p => (p.name, VType.dynamic))).reverse :: cur :: te.vars } body
+    | _ => true
+  def stmtsRT (te : TEnv) (cur : TScope) (seen : List Bytes) : List Stmt → Bool
+    | [] => true
+    | s :: ss => stmtRT te cur seen s && stmtsRT te (nextT te cur s) (nextSeen seen s) ss
+  def blockRT (te : TEnv) : Block → Bool
+    | .mk ss _ => tableOk te ss && stmtsRT { te with fns := fnTable te ss :: te.fns } [] [] ss
+  def optBlockRT (te : TEnv) : Option Block → Bool
+    | none => true
+    | some b => blockRT te b
+end
+
+/-- Whenever the result type of a function of `p` is determined, its `return` expressions break no
+typing rule in the environment they are typed in. -/
+def ReturnsTyped (p : Block) : Prop := blockRT { vars := [], fns := [] } p = true
+
+instance (p : Block) : Decidable (ReturnsTyped p) := by unfold ReturnsTyped; infer_instance
 
 /-- The documented judgement: the program breaks no static rule. -/
 def WF (p : Block) : Prop := scopeViolations p = [] ∧ typeViolations p = []
